@@ -654,3 +654,6 @@ func VerifBlocks(root *html.Node, pageURL *nurl.URL, skipUnlikely bool) extracto
 func VerifFilterTrace(root *html.Node, pageURL *nurl.URL, skipUnlikely bool) extractor.VerifFilterTraceData {
 	return extractor.NewContentExtractor(root, pageURL, nil).VerifFilterTrace(skipUnlikely)
 }
+
+// VerifTraceBlockT names the block record of VerifFilterTrace for callers outside the module.
+type VerifTraceBlockT = extractor.VerifTraceBlock
